@@ -1,19 +1,74 @@
 /-
-  DDProofs.PreimageAny — `preimage` for ANY variable order, reordering not enabled.  When some
-  renamed variable is not a neighbour of its partner, `_preimage_of` renames the target, conjoins
-  and quantifies (`preimageFallback`): the documented result `Q qvars. trans ∧ rename(target)`
-  under the literal preconditions alone (declared levels, no key is a value, no undeclared name
-  as a value) — neither "no two keys with the same value" nor "the target is independent of the
-  values" is needed on that branch (findings F5 / F5b concern the recursion `_image` only).
-  Together with `preimage_spec_partial` (partners neighbours): `preimage_spec_any_order`.
+  DDProofs.PreimageAny — `preimage`, reordering not enabled: the FULL documented statement.
+  Under the literal preconditions alone (pairs of declared levels, no key is a value, no
+  undeclared name as a value) — any variable order, any renaming, any target — the result is
+  `Q qvars. trans ∧ rename(target)`.  `_preimage_of` runs the fused recursion `_image` only when
+  its test `fused` holds (partners neighbours, no two keys with the same value, no value in the
+  support of the target: exactly the hypotheses under which `_image` is right for `preimage`),
+  and renames / conjoins / quantifies otherwise (`preimageFallback`).  The earlier partial
+  theorems (`preimage_spec_partial`, `preimage_spec_any_order`, `preimage_spec_fallback`) are
+  instances.
 -/
 import DDProofs.DynPreimage
 open Std
 
 namespace DD
 
-/-- `preimage`, some partners NOT neighbours: the documented result under the literal
-preconditions -/
+/-- `preimage(trans, target, rename, qvars, bdd, forall)`, reordering not enabled, the FULL
+statement: literal preconditions only -/
+theorem preimage_spec_full (m : Mgr) (hI : Inv m) (hoff : m.lastLen = none)
+    (hV : VarsBij m.tbl) (trans target : Int) (hu : m.tbl.Mem trans) (hv : m.tbl.Mem target)
+    (rn : List (Key × Key)) (qvars : List Key) (fa : Bool) (q : List Nat)
+    (hq : mapToLevelE m.tbl qvars = .ok q)
+    (hne : resolveRename m.tbl rn ≠ [] → 0 < m.nvars)
+    (hov : renameOverlap (resolveRename m.tbl rn) = false)
+    (hnb : badKeys (resolveRename m.tbl rn) = [])
+    (hlv : ∀ p, p ∈ intPairs (resolveRename m.tbl rn) →
+      0 ≤ p.1 ∧ p.1 < (m.nvars : Int) ∧ 0 ≤ p.2 ∧ p.2 < (m.nvars : Int)) :
+    ∃ r m', preimage trans target rn qvars fa m = (.ok r, m') ∧ Inv m' ∧ Ext m.tbl m'.tbl ∧
+      m'.tbl.Mem r ∧ Frame m m' ∧
+      ∀ a, den m'.tbl r a = true ↔
+        qsem fa q (fun b => den m.tbl trans b && den m.tbl target
+          (fun j => b (renOf (intPairs (resolveRename m.tbl rn)) j))) a := by
+  obtain ⟨fused, hfused⟩ := preimageFused_ok hI.wf (resolveRename m.tbl rn) target hv
+  cases fused with
+  | true =>
+    -- the fused recursion: its three assumptions are what the test established
+    obtain ⟨hadj, hinj, s, hs, hdis⟩ := preimageFused_true hfused
+    obtain ⟨s', hs', _, hdep⟩ := supportLevels_spec' hI.wf target hv
+    rw [hs] at hs'
+    cases hs'
+    obtain ⟨r, m1, he, h1, h2, h3, h4, h5⟩ := preimageBody_spec_fused { m with ctx := true }
+      (hI.setCtx true) hoff hV trans target hu hv rn qvars fa q hq hfused hne hov hnb hlv hadj hinj
+      (fun p hp l hl hd => hdis p hp l hl ((hdep l).mpr hd))
+    exact ⟨r, { m1 with ctx := m.ctx },
+      preimage_of_body_ok m hV trans target rn qvars fa q hq r m1 he,
+      h1.setCtx _, h2, h3, ⟨h4.vars, h4.l2v, h4.lastLen, rfl, h4.sched, h4.roots⟩, h5⟩
+  | false =>
+    -- rename, conjoin, quantify
+    have hbody : preimageBody trans target rn qvars fa { m with ctx := true } =
+        preimageFallback trans target (resolveRename m.tbl rn) q fa { m with ctx := true } := by
+      have hq' : mapToLevelE ({ m with ctx := true } : Mgr).tbl qvars = .ok q := hq
+      have hav : assertValidRename (resolveRename m.tbl rn) { m with ctx := true } =
+          (.ok (), { m with ctx := true }) :=
+        assertValidRename_ok { m with ctx := true } hV _ hne hov
+      have hf' : preimageFused ({ m with ctx := true } : Mgr).tbl (resolveRename m.tbl rn) target =
+          .ok false := hfused
+      unfold preimageBody
+      simp only [hq', hav, hf', Bool.false_eq_true, if_false]
+    have hql : ∀ i, i ∈ q → m.tbl.l2v.contains i = true := by
+      intro i hi
+      obtain ⟨nm, hnm⟩ := mapToLevelE_named m.tbl hV qvars q hq i hi
+      rw [TreeMap.contains_eq_isSome_getElem?, hnm]
+      rfl
+    obtain ⟨r, m1, he, hs, hm, hd⟩ := (preimageFallback_out { m with ctx := true } (hI.setCtx true)
+      rfl trans target hu hv fa (resolveRename m.tbl rn) q hnb hlv hql).off hoff
+    have hs' : StepK m { m1 with ctx := m.ctx } := hs.ofCtx true
+    exact ⟨r, { m1 with ctx := m.ctx },
+      preimage_of_body_ok m hV trans target rn qvars fa q hq r m1 (by rw [hbody]; exact he),
+      hs'.inv, hs'.ext, hm, hs'.frame, hd⟩
+
+/-- `preimage`, some partners NOT neighbours (instance of `preimage_spec_full`) -/
 theorem preimage_spec_fallback (m : Mgr) (hI : Inv m) (hoff : m.lastLen = none)
     (hV : VarsBij m.tbl) (trans target : Int) (hu : m.tbl.Mem trans) (hv : m.tbl.Mem target)
     (rn : List (Key × Key)) (qvars : List Key) (fa : Bool) (q : List Nat)
@@ -23,45 +78,16 @@ theorem preimage_spec_fallback (m : Mgr) (hI : Inv m) (hoff : m.lastLen = none)
     (hnb : badKeys (resolveRename m.tbl rn) = [])
     (hlv : ∀ p, p ∈ intPairs (resolveRename m.tbl rn) →
       0 ≤ p.1 ∧ p.1 < (m.nvars : Int) ∧ 0 ≤ p.2 ∧ p.2 < (m.nvars : Int))
-    (hnadj : ¬ ∀ p, p ∈ intPairs (resolveRename m.tbl rn) → (p.1 - p.2).natAbs = 1) :
+    (_hnadj : ¬ ∀ p, p ∈ intPairs (resolveRename m.tbl rn) → (p.1 - p.2).natAbs = 1) :
     ∃ r m', preimage trans target rn qvars fa m = (.ok r, m') ∧ Inv m' ∧ Ext m.tbl m'.tbl ∧
       m'.tbl.Mem r ∧ Frame m m' ∧
       ∀ a, den m'.tbl r a = true ↔
         qsem fa q (fun b => den m.tbl trans b && den m.tbl target
-          (fun j => b (renOf (intPairs (resolveRename m.tbl rn)) j))) a := by
-  have hnbr : renameNeighbors (resolveRename m.tbl rn) = false := by
-    rw [← Bool.not_eq_true]
-    intro h
-    apply hnadj
-    unfold renameNeighbors at h
-    rw [List.all_eq_true] at h
-    intro p hp
-    simpa using h p hp
-  have hbody : preimageBody trans target rn qvars fa { m with ctx := true } =
-      preimageFallback trans target (resolveRename m.tbl rn) q fa { m with ctx := true } := by
-    have hq' : mapToLevelE ({ m with ctx := true } : Mgr).tbl qvars = .ok q := hq
-    have hav : assertValidRename (resolveRename m.tbl rn) { m with ctx := true } =
-        (.ok (), { m with ctx := true }) :=
-      assertValidRename_ok { m with ctx := true } hV _ hne hov
-    unfold preimageBody
-    simp only [hq', hav, hnbr, Bool.false_eq_true, if_false]
-  have hql : ∀ i, i ∈ q → m.tbl.l2v.contains i = true := by
-    intro i hi
-    obtain ⟨nm, hnm⟩ := mapToLevelE_named m.tbl hV qvars q hq i hi
-    rw [TreeMap.contains_eq_isSome_getElem?, hnm]
-    rfl
-  obtain ⟨r, m1, he, hs, hm, hd⟩ := (preimageFallback_out { m with ctx := true } (hI.setCtx true)
-    rfl trans target hu hv fa (resolveRename m.tbl rn) q hnb hlv hql).off hoff
-  have hs' : StepK m { m1 with ctx := m.ctx } := hs.ofCtx true
-  exact ⟨r, { m1 with ctx := m.ctx },
-    preimage_of_body_ok m hV trans target rn qvars fa q hq r m1 (by rw [hbody]; exact he),
-    hs'.inv, hs'.ext, hm, hs'.frame, hd⟩
+          (fun j => b (renOf (intPairs (resolveRename m.tbl rn)) j))) a :=
+  preimage_spec_full m hI hoff hV trans target hu hv rn qvars fa q hq hne hov hnb hlv
 
-/-- `preimage` for ANY variable order: under the preconditions of `preimage_spec_partial` other
-than adjacency (declared levels, keys disjoint from values, no two keys with the same value,
-the target independent of every value) the result is `Q qvars. trans ∧ rename(target)` — through
-the recursion `_image` when the partners are neighbours, through rename / conjoin / quantify
-otherwise -/
+/-- `preimage` for ANY variable order under the hypotheses of `preimage_spec_partial` other than
+adjacency (instance of `preimage_spec_full`) -/
 theorem preimage_spec_any_order (m : Mgr) (hI : Inv m) (hoff : m.lastLen = none)
     (hV : VarsBij m.tbl) (trans target : Int) (hu : m.tbl.Mem trans) (hv : m.tbl.Mem target)
     (rn : List (Key × Key)) (qvars : List Key) (fa : Bool) (q : List Nat)
@@ -71,6 +97,31 @@ theorem preimage_spec_any_order (m : Mgr) (hI : Inv m) (hoff : m.lastLen = none)
     (hnb : badKeys (resolveRename m.tbl rn) = [])
     (hlv : ∀ p, p ∈ intPairs (resolveRename m.tbl rn) →
       0 ≤ p.1 ∧ p.1 < (m.nvars : Int) ∧ 0 ≤ p.2 ∧ p.2 < (m.nvars : Int))
+    (_hinj : ∀ p p', p ∈ intPairs (resolveRename m.tbl rn) →
+      p' ∈ intPairs (resolveRename m.tbl rn) → p.2 = p'.2 → p.1 = p'.1)
+    (_hind : ∀ p, p ∈ intPairs (resolveRename m.tbl rn) → ∀ l : Nat, p.2 = (l : Int) →
+      ¬ dependsOn m.tbl target l) :
+    ∃ r m', preimage trans target rn qvars fa m = (.ok r, m') ∧ Inv m' ∧ Ext m.tbl m'.tbl ∧
+      m'.tbl.Mem r ∧ Frame m m' ∧
+      ∀ a, den m'.tbl r a = true ↔
+        qsem fa q (fun b => den m.tbl trans b && den m.tbl target
+          (fun j => b (renOf (intPairs (resolveRename m.tbl rn)) j))) a :=
+  preimage_spec_full m hI hoff hV trans target hu hv rn qvars fa q hq hne hov hnb hlv
+
+/-- module-level `preimage(trans, target, rename, qvars, bdd, forall)`, reordering not enabled:
+when the pairs of the renaming are declared levels, adjacent (`|k - rename k| = 1`), no two keys
+share a target, and THE TARGET IS INDEPENDENT OF EVERY VALUE OF THE RENAMING, the result is
+`Q qvars. trans ∧ rename(target)`. -/
+theorem preimage_spec_partial (m : Mgr) (hI : Inv m) (hoff : m.lastLen = none)
+    (hV : VarsBij m.tbl) (trans target : Int) (hu : m.tbl.Mem trans) (hv : m.tbl.Mem target)
+    (rn : List (Key × Key)) (qvars : List Key) (fa : Bool) (q : List Nat)
+    (hq : mapToLevelE m.tbl qvars = .ok q)
+    (hne : resolveRename m.tbl rn ≠ [] → 0 < m.nvars)
+    (hov : renameOverlap (resolveRename m.tbl rn) = false)
+    (hnb : badKeys (resolveRename m.tbl rn) = [])
+    (hlv : ∀ p, p ∈ intPairs (resolveRename m.tbl rn) →
+      0 ≤ p.1 ∧ p.1 < (m.nvars : Int) ∧ 0 ≤ p.2 ∧ p.2 < (m.nvars : Int))
+    (hadj : ∀ p, p ∈ intPairs (resolveRename m.tbl rn) → (p.1 - p.2).natAbs = 1)
     (hinj : ∀ p p', p ∈ intPairs (resolveRename m.tbl rn) →
       p' ∈ intPairs (resolveRename m.tbl rn) → p.2 = p'.2 → p.1 = p'.1)
     (hind : ∀ p, p ∈ intPairs (resolveRename m.tbl rn) → ∀ l : Nat, p.2 = (l : Int) →
@@ -79,11 +130,101 @@ theorem preimage_spec_any_order (m : Mgr) (hI : Inv m) (hoff : m.lastLen = none)
       m'.tbl.Mem r ∧ Frame m m' ∧
       ∀ a, den m'.tbl r a = true ↔
         qsem fa q (fun b => den m.tbl trans b && den m.tbl target
-          (fun j => b (renOf (intPairs (resolveRename m.tbl rn)) j))) a := by
-  by_cases hadj : ∀ p, p ∈ intPairs (resolveRename m.tbl rn) → (p.1 - p.2).natAbs = 1
-  · exact preimage_spec_partial m hI hoff hV trans target hu hv rn qvars fa q hq hne hov hnb hlv
-      hadj hinj hind
-  · exact preimage_spec_fallback m hI hoff hV trans target hu hv rn qvars fa q hq hne hov hnb hlv
-      hadj
+          (fun j => b (renOf (intPairs (resolveRename m.tbl rn)) j))) a :=
+  preimage_spec_full m hI hoff hV trans target hu hv rn qvars fa q hq hne hov hnb hlv
+
+/-- `preimage` with the renaming and the quantified variables given BY NAME (declared names,
+pairwise distinct keys, no key is a value, partners adjacent, no two keys with the same value),
+the target independent of every value of the renaming -/
+theorem preimage_spec_partial_names (m : Mgr) (hI : Inv m) (hoff : m.lastLen = none)
+    (hV : VarsBij m.tbl) (trans target : Int) (hu : m.tbl.Mem trans) (hv : m.tbl.Mem target)
+    (l : List (String × String)) (qs : List String) (fa : Bool)
+    (hkeys : (l.map (·.1)).Nodup)
+    (hd : ∀ p, p ∈ l → m.tbl.vars.contains p.1 = true ∧ m.tbl.vars.contains p.2 = true)
+    (hqd : ∀ s, s ∈ qs → m.tbl.vars.contains s = true)
+    (hov : ∀ p p', p ∈ l → p' ∈ l → p.2 ≠ p'.1)
+    (hadj : ∀ p, p ∈ l → ((lvlOf m.tbl p.1 : Int) - (lvlOf m.tbl p.2 : Int)).natAbs = 1)
+    (hinj : ∀ p p', p ∈ l → p' ∈ l → p.2 = p'.2 → p.1 = p'.1)
+    (hind : ∀ p, p ∈ l → ¬ dependsOn m.tbl target (lvlOf m.tbl p.2)) :
+    ∃ r m', preimage trans target (l.map fun p => (Key.name p.1, Key.name p.2))
+        (qs.map Key.name) fa m = (.ok r, m') ∧ Inv m' ∧ Ext m.tbl m'.tbl ∧
+      m'.tbl.Mem r ∧ Frame m m' ∧
+      ∀ a, den m'.tbl r a = true ↔
+        qsem fa (qs.map (lvlOf m.tbl)) (fun b => den m.tbl trans b && den m.tbl target
+          (fun j => b (renOf
+            (l.map fun p => ((lvlOf m.tbl p.1 : Int), (lvlOf m.tbl p.2 : Int))) j))) a := by
+  obtain ⟨hres, hip⟩ := intPairs_resolveRename_names m.tbl hV l hkeys hd
+  generalize hlp : (l.map fun p => ((lvlOf m.tbl p.1 : Int), (lvlOf m.tbl p.2 : Int))) = lp at hip
+  have hres' : resolveRename m.tbl (l.map fun p => (Key.name p.1, Key.name p.2)) =
+      lp.map fun p => (Key.lvl p.1, Key.lvl p.2) := by
+    rw [hres, ← hlp, List.map_map]; rfl
+  have hip' : intPairs (lp.map fun p => (Key.lvl p.1, Key.lvl p.2)) = lp := intPairs_map_lvl lp
+  have hlvl : ∀ s, m.tbl.vars.contains s = true → lvlOf m.tbl s < m.nvars := by
+    intro s hs
+    obtain ⟨i, hi⟩ := (vars_contains_iff _ _).mp hs
+    rw [lvlOf_eq hi]; exact hV.lt _ _ hi
+  have hinjv : ∀ s s', m.tbl.vars.contains s = true → m.tbl.vars.contains s' = true →
+      lvlOf m.tbl s = lvlOf m.tbl s' → s = s' := by
+    intro s s' hs hs' he
+    obtain ⟨i, hi⟩ := (vars_contains_iff _ _).mp hs
+    obtain ⟨j, hj⟩ := (vars_contains_iff _ _).mp hs'
+    rw [lvlOf_eq hi, lvlOf_eq hj] at he
+    subst he
+    exact hV.inj hi hj
+  have hmem : ∀ x, x ∈ lp → ∃ p, p ∈ l ∧ x = ((lvlOf m.tbl p.1 : Int), (lvlOf m.tbl p.2 : Int)) := by
+    intro x hx
+    rw [← hlp] at hx
+    obtain ⟨p, hp, rfl⟩ := List.mem_map.mp hx
+    exact ⟨p, hp, rfl⟩
+  have := preimage_spec_partial m hI hoff hV trans target hu hv
+    (l.map fun p => (Key.name p.1, Key.name p.2))
+    (qs.map Key.name) fa (qs.map (lvlOf m.tbl)) (mapToLevelE_names m.tbl qs hqd)
+    (by
+      rw [hres']
+      intro hne
+      cases hl : l with
+      | nil => rw [← hlp, hl] at hne; exact absurd rfl hne
+      | cons p _ =>
+        have := hlvl _ (hd p (by rw [hl]; exact List.mem_cons_self)).1
+        omega)
+    (by
+      rw [hres', renameOverlap_lvls]
+      intro x x' hx hx' he
+      obtain ⟨p, hp, rfl⟩ := hmem x hx
+      obtain ⟨p', hp', rfl⟩ := hmem x' hx'
+      simp only at he
+      exact hov p p' hp hp' (hinjv _ _ (hd p hp).2 (hd p' hp').1 (by omega)))
+    (by rw [hres']; exact badKeys_map_lvl lp)
+    (by
+      rw [hres', hip']
+      intro x hx
+      obtain ⟨p, hp, rfl⟩ := hmem x hx
+      have h1 := hlvl _ (hd p hp).1
+      have h2 := hlvl _ (hd p hp).2
+      simp only
+      omega)
+    (by
+      rw [hres', hip']
+      intro x hx
+      obtain ⟨p, hp, rfl⟩ := hmem x hx
+      exact hadj p hp)
+    (by
+      rw [hres', hip']
+      intro x x' hx hx' he
+      obtain ⟨p, hp, rfl⟩ := hmem x hx
+      obtain ⟨p', hp', rfl⟩ := hmem x' hx'
+      simp only at he
+      have h2 := hinjv _ _ (hd p hp).2 (hd p' hp').2 (by omega)
+      rw [hinj p p' hp hp' h2])
+    (by
+      rw [hres', hip']
+      intro x hx lv hlv
+      obtain ⟨p, hp, rfl⟩ := hmem x hx
+      simp only at hlv
+      have : lvlOf m.tbl p.2 = lv := by omega
+      subst this
+      exact hind p hp)
+  rw [hres', hip'] at this
+  exact this
 
 end DD
